@@ -385,7 +385,7 @@ impl Check for C06 {
         "C06"
     }
     fn rule(&self) -> String {
-        "proptest-generated trees (1-2 source trees of 8-36 entries: many small files, files of up to ~140 KB that span up to 137 blocks at the generated block size 1 KiB/4 KiB/64 KiB/default, nested dirs, links) x destination fresh/empty/pre-populated x metadata options; each case is executed 6 (thorough: 24) times under the ptrace supervisor's priority scheduler with generated (driver, workers in {1,2,3,4,8,16,64}, schedule kind in {random priorities, walker-first, workers-first, one starved worker, free}, seed, priority change points; in 4 % of the runs the walker is additionally stalled for 0.3/1.2/2.5 s of wall-clock time at a generated directory read). Oracle: all runs have the same exit class; if 0, all final destinations are identical (paths, kinds, bytes, link text, mode, mtime) across schedules, worker counts and drivers and equal the reference model; on every run no creation call in the destination returns ENOENT and every chmod/utimens/chown/setxattr on a destination file starts after its last data write returned. Non-trivial: >=4 threads, >=2 distinct observed orders of destination-mutating calls within one driver, and (multi-block file or >=8 files); distinct_nontrivial counts distinct (case, driver, order) triples.".into()
+        "proptest-generated trees (1-2 source trees of 8-36 entries: many small files, files of up to ~140 KB that span up to 137 blocks at the generated block size 1 KiB/4 KiB/64 KiB/default, nested dirs, links) x destination fresh/empty/pre-populated x metadata options; each case is executed 6 (thorough: 24) times under the ptrace supervisor's priority scheduler with generated (driver, workers in {1,2,3,4,8,16,64}, schedule kind in {random priorities, walker-first, workers-first, one starved worker, free}, seed, priority change points; in 4 % of the runs the walker is additionally stalled for 0.3/1.2/2.5 s of wall-clock time at a generated directory read; in a seventh of the cases copy_file_range is unavailable (EXDEV/ENOSYS/EPERM on every call, the same for all runs of the case) so that every block goes through the user-space fallback, with five more change points). Oracle: all runs have the same exit class; if 0, all final destinations are identical (paths, kinds, bytes, link text, mode, mtime) across schedules, worker counts and drivers and equal the reference model; on every run no creation call in the destination returns ENOENT and every chmod/utimens/chown/setxattr on a destination file starts after its last data write returned. Non-trivial: >=4 threads, >=2 distinct observed orders of destination-mutating calls within one driver, and (multi-block file or >=8 files); distinct_nontrivial counts distinct (case, driver, order) triples.".into()
     }
     fn assumptions(&self) -> Vec<String> {
         vec!["schedules are controlled at system-call granularity only; sources never share a basename".into()]
